@@ -3,7 +3,7 @@ from core import norm, S
 
 class HarnessBug(BaseException):
     pass
-class Timeout(BaseException):
+class Timeout(Exception):
     pass
 class OutOfDomain(BaseException):
     """the program prints / stringifies an interpreter object: outside the modelled domain"""
